@@ -331,6 +331,7 @@ type c34Side struct {
 	closeRet  time.Time   // when the first Close call of this side returned
 	closeDur  time.Duration // how long the slowest Close call of this side took (minus 5 s per overlapping CloseWrite)
 	cwActive, cwDone int    // CloseWrite calls of this side in progress / completed
+	closeWithInFlight bool  // the "close" operation found a Write of this side in flight
 	cwShutStep       int    // scheduler step at which the first CloseWrite that shut the write side returned
 	blockedAfterClose time.Duration // longest time a Read stayed blocked after a Close call on this side had returned
 	paused    bool
@@ -413,6 +414,9 @@ func execC34(t *testing.T, scAny any, keepLog bool) *Outcome {
 		timedClose := func(sd *c34Side) error {
 			t0 := s.Now()
 			wasAbrupt := sides[0].abrupt || sides[1].abrupt
+			if sd.closeWithInFlight {
+				markAbrupt(sd)
+			}
 			cw0 := sd.cwDone
 			active0 := sd.cwActive
 			err := sd.conn.Close()
@@ -680,9 +684,10 @@ func execC34(t *testing.T, scAny any, keepLog bool) *Outcome {
 						if sd.closedAt < 0 {
 							sd.closedAt = len(sd.writes)
 						}
-						if sd.inFlight > 0 {
-							markAbrupt(sd)
-						}
+						// (a Write of this side still in flight makes the close abrupt — but only after timedClose has
+						// noted whether the connection was undisturbed until now: Close meeting a stalled Write is the
+						// very situation its duration is judged in)
+						sd.closeWithInFlight = sd.inFlight > 0
 						sd.localClose = true
 						closeErr(sd, timedClose(sd))
 						return
